@@ -209,7 +209,7 @@ def apply_ops(ops, stage, obj, ctx):
     return obj
 
 
-def realise(ops, out, ctx):
+def realise(ops, out, ctx, expected=None):
     """honest reply (draft or item list) + ops -> (raw bytes, symbolic items or None if not TLV8)"""
     U = ctx.U
     if hasattr(out, "build"):
@@ -221,7 +221,7 @@ def realise(ops, out, ctx):
     rb = ref_encode([(t, v.b) for t, v in items])
     if any(st == "raw" for st, _, _ in ops):
         rb = apply_ops(ops, "raw", rb, ctx)
-        sym = U.abstract_items(rb)
+        sym = U.abstract_items(rb, expected)
     else:
         sym = items
     return rb, sym
@@ -277,7 +277,8 @@ def run_scenario(s: Scn, glue=None):
         m1kind = "other"
     kind, out = acc.on_m1(m1)
     ctx.C = acc.C
-    m2_raw, m2_sym = realise(s.m2, out, ctx)
+    flt = (lambda e: None if s.transport == "ble" else [int(x) for x in e])  # noqa: E731
+    m2_raw, m2_sym = realise(s.m2, out, ctx, flt(exp2))
     rec["m2"] = m2_raw
     sym_m2 = None if m2_sym is None else reply_term(m2_sym)
     stage = "m2"
@@ -292,7 +293,7 @@ def run_scenario(s: Scn, glue=None):
             rec["m3"] = m3
             ok, out4 = acc.on_m3(m3)
             m3acc = ok
-            m4_raw, m4_sym = realise(s.m4, out4, ctx)
+            m4_raw, m4_sym = realise(s.m4, out4, ctx, flt(exp4))
             rec["m4"] = m4_raw
             sym_m4 = None if m4_sym is None else (reply_term(m4_sym) if s.m4 else "honest")
             stage = "m4"
